@@ -1558,6 +1558,7 @@ fn conn_recount(sh: &Rc<MShared>) {
 }
 
 struct MShared {
+  conn_take: Option<usize>,
   conn: Option<Rc<MConn>>,
   env: Rc<MEnv>,
   root: Node,
@@ -1621,7 +1622,31 @@ fn m_subscribe(sh: &Rc<MShared>, k: usize) {
   let d = Disp::new();
   d.add_obs(&o);
   if let Some(conn) = sh.conn.clone() {
-    // subscribe to the connectable's observable()
+    // subscribe to the connectable's observable() (optionally through take(n))
+    let o = match sh.conn_take {
+      None => o,
+      Some(n) => {
+        let cnt = Rc::new(Cell::new(0usize));
+        let (o1, o2, o3, d2) = (o.clone(), o.clone(), o.clone(), d.clone());
+        let w = Obs::new(
+          move |p| {
+            let k = cnt.get();
+            cnt.set(k + 1);
+            if k < n {
+              o1.next(p);
+            }
+            if k + 1 >= n {
+              o1.complete();
+              d2.dispose(Cause::Take);
+            }
+          },
+          move |c| o2.error(c),
+          move || o3.complete(),
+        );
+        d.add_obs(&w);
+        w
+      }
+    };
     {
       let sh2 = sh.clone();
       d.add(move |_| conn_recount(&sh2));
@@ -1710,6 +1735,7 @@ pub fn run_model_opt(case: &Case, conv: Conv, sentinel: bool) -> Result<MResult,
   });
   let nrec = case.recorders.len();
   let sh = Rc::new(MShared {
+    conn_take: case.conn_take,
     conn: case.conn.clone().map(|kind| {
       Rc::new(MConn {
         kind,
